@@ -1281,7 +1281,7 @@ def correspondence(ctx):
             "cases": len(ex)}
         for i in range(0, len(ex), 20000):
             run_rule_cases(ctx, ex[i:i + 20000])
-        n_rand, n_conf, n_mach, n_verd = (300000, 20000, 20000, 6000) if thorough else (25000, 2000, 1500, 400)
+        n_rand, n_conf, n_mach, n_verd = (300000, 20000, 20000, 6000) if thorough else (25000, 2000, 1500, 450)
         rnd = [gen_rule_random(rng) for _ in range(n_rand)]
         for i in range(0, len(rnd), 20000):
             run_rule_cases(ctx, rnd[i:i + 20000])
@@ -1291,7 +1291,9 @@ def correspondence(ctx):
         for i in range(0, len(mc), 1000):
             run_machine_cases(ctx, mc[i:i + 1000])
         vc = [gen_verdict_case(rng) for _ in range(n_verd)]
-        run_verdict_cases(ctx, vc, suite_every=1 if not thorough else 3)
+        run_verdict_cases(ctx, vc, suite_every=3)
+        # report the smallest failing input of every key
+        ctx.violations.sort(key=lambda v: (v["key"], len(json.dumps(v["case"], default=str))))
     finally:
         cleanup_impl()
 
